@@ -262,6 +262,19 @@ def _impl(tier, seed, search):
                 scn_ = 1e6
                 L.close('Twist3(X)*Y = X*Y (near pi, far)', r[0], r[3], 1e-10, scn_, dict(axis=axn_, pi_minus=dn_), what='Twist3(X) * Y differs from X * Y for a rotation next to a half turn composed with a far pose', sig='twist-compose:near-pi')
                 L.close('(Twist3(X)*Twist3(Y)).SE3() = X*Y (near pi, far)', r[1], r[3], 1e-10, scn_, dict(axis=axn_, pi_minus=dn_), sig='twist-compose:near-pi'); L.close('Twist3(X).SE3()*p = X*p (near pi, far)', r[2], r[4], 1e-10, scn_, dict(axis=axn_, pi_minus=dn_), sig='twist-compose:near-pi')
+        # integer powers -6 .. 6 in every class describe the same rotation; lists of angles with a unit in the planar class
+        if i % 5 == 1:
+            Am_ = np.asarray(A.A if hasattr(A, 'A') and not isinstance(A, np.ndarray) else A, float); Xp_ = SO3(Am_, check=False); qp_ = UnitQuaternion(Am_)
+            for n_ in (-6, -5, -4, -3, 3, 4, 5, 6):
+                ok, r = L.noraise(f'UQ**{n_}', lambda: ((qp_ ** n_).R, (Xp_ ** n_).A, np.linalg.matrix_power(Am_ if n_ > 0 else Am_.T, abs(n_))), dict(R=Am_, n=n_), 'UnitQuaternion ** n vs SO3 ** n')
+                if ok:
+                    L.close(f'UQ**n=SO3**n', r[0], r[2], TOL, 1.0, dict(R=Am_, n=n_), what=f'UnitQuaternion(X) ** {n_} is not the rotation X ** {n_}', sig='pow:classes'); L.close('SO3**n', r[1], r[2], TOL, 1.0, dict(R=Am_, n=n_), sig='pow:classes')
+            angs_ = [30.0, -75.0, 200.0]
+            ok, r = L.noraise('SO2(list, deg)', lambda: ([np.asarray(x_, float) for x_ in SO2(angs_, unit='deg').data], [np.asarray(x_, float) for x_ in SO2(np.array(angs_), unit='deg').data], [np.asarray(x_, float)[:2, :2] for x_ in SO2(angs_, unit='deg').SE2().data]), dict(angles=angs_), 'SO2(list of angles, unit=deg)')
+            if ok:
+                for k_, a_ in enumerate(angs_):
+                    for nm_, got_ in (('SO2(list,deg)', r[0]), ('SO2(array,deg)', r[1]), ('SO2(list,deg).SE2()', r[2])):
+                        if len(got_) == 3: L.close(nm_, got_[k_], inputs.r2(math.radians(a_)), TOL, 1.0, dict(angles=angs_, k=k_), what=f'{nm_}: element k is not the rotation by angle k in degrees', sig='SO2(list,deg)')
         # two-vector frames from vectors that are neither unit nor perpendicular: the same rotation in every class
         if i % 4 == 3:
             oo_ = g.normal(size=3) * 10.0 ** g.uniform(-1, 1); aa_ = g.normal(size=3) * 10.0 ** g.uniform(-1, 1)
